@@ -184,3 +184,120 @@ theorem multiStart_of_first (key : α → κ) (pre post : List α) (p : α)
 end sel
 
 end BqVerif.Cost
+
+namespace BqVerif.Cost
+
+/-! ## method selection -/
+
+/-- index of the first element satisfying `p`, counted from `k` -/
+theorem firstCapable_some (gs : List GateCaps) (l : List InstEntry) (k i : Nat) :
+    firstCapable gs l k = some i ↔
+      ∃ j e, i = k + j ∧ l[j]? = some e ∧ e.rule.capable gs = true ∧
+        ∀ j' < j, ∀ e', l[j']? = some e' → e'.rule.capable gs = false := by
+  induction l generalizing k with
+  | nil => simp [firstCapable]
+  | cons a as ih =>
+    unfold firstCapable
+    by_cases ha : a.rule.capable gs = true
+    · simp only [ha, if_true]
+      constructor
+      · intro h
+        cases h
+        exact ⟨0, a, rfl, rfl, ha, fun j' hj' => absurd hj' (Nat.not_lt_zero _)⟩
+      · rintro ⟨j, e, hi, _, _, hmin⟩
+        cases j with
+        | zero => simp [hi]
+        | succ j =>
+          have := hmin 0 (Nat.succ_pos _) a rfl
+          rw [ha] at this; cases this
+    · have ha' : a.rule.capable gs = false := by simpa using ha
+      simp only [ha', Bool.false_eq_true, if_false]
+      rw [ih (k + 1)]
+      constructor
+      · rintro ⟨j, e, hi, hj, hc, hmin⟩
+        refine ⟨j + 1, e, by omega, by simpa using hj, hc, ?_⟩
+        intro j' hj' e' he'
+        cases j' with
+        | zero => simp at he'; rw [← he']; exact ha'
+        | succ j' => exact hmin j' (by omega) e' (by simpa using he')
+      · rintro ⟨j, e, hi, hj, hc, hmin⟩
+        cases j with
+        | zero => simp at hj; rw [hj] at ha'; rw [ha'] at hc; cases hc
+        | succ j =>
+          refine ⟨j, e, by omega, by simpa using hj, hc, ?_⟩
+          intro j' hj' e' he'
+          exact hmin (j' + 1) (by omega) e' (by simpa using he')
+
+theorem firstCapable_none (gs : List GateCaps) (l : List InstEntry) (k : Nat) :
+    firstCapable gs l k = none ↔ ∀ e ∈ l, e.rule.capable gs = false := by
+  induction l generalizing k with
+  | nil => simp [firstCapable]
+  | cons a as ih =>
+    unfold firstCapable
+    by_cases ha : a.rule.capable gs = true
+    · simp [ha]
+    · have ha' : a.rule.capable gs = false := by simpa using ha
+      simp [ha', ih]
+
+theorem firstNamed_some (s : String) (l : List InstEntry) (k i : Nat) (e : InstEntry) :
+    firstNamed s l k = some (i, e) ↔
+      ∃ j, i = k + j ∧ l[j]? = some e ∧ (e.name.toLower == s.toLower) = true ∧
+        ∀ j' < j, ∀ e', l[j']? = some e' → (e'.name.toLower == s.toLower) = false := by
+  induction l generalizing k with
+  | nil => simp [firstNamed]
+  | cons a as ih =>
+    unfold firstNamed
+    by_cases ha : (a.name.toLower == s.toLower) = true
+    · simp only [ha, if_true]
+      constructor
+      · intro h
+        cases h
+        exact ⟨0, rfl, rfl, ha, fun j' hj' => absurd hj' (Nat.not_lt_zero _)⟩
+      · rintro ⟨j, hi, hj, _, hmin⟩
+        cases j with
+        | zero => simp at hj; simp [hi, hj]
+        | succ j =>
+          have := hmin 0 (Nat.succ_pos _) a rfl
+          rw [ha] at this; cases this
+    · have ha' : (a.name.toLower == s.toLower) = false := by simpa using ha
+      simp only [ha', Bool.false_eq_true, if_false]
+      rw [ih (k + 1)]
+      constructor
+      · rintro ⟨j, hi, hj, hc, hmin⟩
+        refine ⟨j + 1, by omega, by simpa using hj, hc, ?_⟩
+        intro j' hj' e' he'
+        cases j' with
+        | zero => simp at he'; rw [← he']; exact ha'
+        | succ j' => exact hmin j' (by omega) e' (by simpa using he')
+      · rintro ⟨j, hi, hj, hc, hmin⟩
+        cases j with
+        | zero => simp at hj; rw [hj] at ha'; rw [ha'] at hc; cases hc
+        | succ j =>
+          refine ⟨j, by omega, by simpa using hj, hc, ?_⟩
+          intro j' hj' e' he'
+          exact hmin (j' + 1) (by omega) e' (by simpa using he')
+
+theorem firstNamed_none (s : String) (l : List InstEntry) (k : Nat) :
+    firstNamed s l k = none ↔ ∀ e ∈ l, (e.name.toLower == s.toLower) = false := by
+  induction l generalizing k with
+  | nil => simp [firstNamed]
+  | cons a as ih =>
+    unfold firstNamed
+    by_cases ha : (a.name.toLower == s.toLower) = true
+    · simp only [ha, if_true]
+      constructor
+      · intro h; cases h
+      · intro h
+        have := h a List.mem_cons_self
+        rw [ha] at this; cases this
+    · have ha' : (a.name.toLower == s.toLower) = false := by simpa using ha
+      simp only [ha', Bool.false_eq_true, if_false]
+      rw [ih]
+      constructor
+      · intro h e he
+        rcases List.mem_cons.mp he with rfl | he
+        · exact ha'
+        · exact h e he
+      · intro h e he; exact h e (List.mem_cons_of_mem _ he)
+
+end BqVerif.Cost
